@@ -175,13 +175,14 @@ PLANS["C16"] = {
 
 PLANS["C15"] = {
     "title": "equivalent formulations of an LP receive equivalent answers",
-    "rule": ("state = a formulation reachable from a base LP by composing transformations from a fixed alphabet of 22 (row/column permutations, row scaling by 2, 1/3, -1 with sense flip, "
+    "rule": ("state = a formulation reachable from a base LP by composing transformations from a fixed alphabet of 24 (row scaling by +-10^8, row/column permutations, row scaling by 2, 1/3, -1 with sense flip, "
              "column scaling, negation of one / of all columns with mirrored bounds, column shifts, objective negation with min/max flip, row duplication, redundant row, equality split); breadth-first to the stated depth; every formulation is solved "
              "with QSexact_solver (dual start; the -primal runs use the primal start for base and transformed formulation alike) and status and back-transformed optimum are compared with the base formulation's (and with the reference truth for the small family). Base LPs: the enumerated small "
-             "family and a deterministic catalogue of 24 structured LPs (transportation, staircase with ranged rows, dense block + singleton rows, set-cover relaxation, potentials with free columns, "
+             "family, the targeted numeric family T (near-parallel, tiny coefficients, degenerate vertices ...) and a deterministic catalogue of 24 structured LPs (transportation, staircase with ranged rows, dense block + singleton rows, set-cover relaxation, potentials with free columns, "
              "degenerate assignment) x {60,150,300,450} rows (up to 2497 columns). non-trivial = base LP with rows and a finite optimum"),
     "quick": [fam("meta-S0q1-d1", "prodl1", "meta", {"fam": "S0q1", "depth": 1}, weight=2, crash_props=["C17", "C15"], timeout=900),
               fam("meta-CAT-d1", "prod", "meta", {"fam": "CAT", "depth": 1}, weight=3, crash_props=["C17", "C15"], timeout=900),
+              fam("meta-T-d1", "prod", "meta", {"fam": "T", "depth": 1, "tscale": 30}, weight=3, crash_props=["C17", "C15"], timeout=900),
               fam("meta-S0q1-d1-primal", "prodl1", "meta", {"fam": "S0q1", "depth": 1, "algo": "primal"}, weight=2, crash_props=["C17", "C15"], timeout=900),
               fam("meta-CAT-d1-primal", "prod", "meta", {"fam": "CAT", "depth": 1, "algo": "primal"}, weight=3, crash_props=["C17", "C15"], timeout=900)],
     "thorough": [fam("meta-S0q-d2", "prodl1", "meta", {"fam": "S0q", "depth": 2}, weight=10, crash_props=["C17", "C15"], timeout=900),
